@@ -153,7 +153,21 @@ def r181_182(ctx):
         # store keeps the old object -- another type, unit or sign of zero -- although set_value accepted the new one)
         snodes = [g.node_for(st) for st in stores]
         if all(x is not None for x in snodes):
-            skipped = g.reaches(g.entry, g.exit, avoid=snodes, labels_excluded=('exc', 'raise', 'reraise'))
+            # a `return` whose own guards contradict each other (`if self._read_only: raise` above, `if self._read_only: return` below: a
+            # defensive clause that cannot be reached) is no exit
+            dead = []
+            for r_ in [x for x in walk_shallow(sv) if isinstance(x, ast.Return)]:
+                rn_ = g.node_for(r_)
+                if rn_ is None:
+                    continue
+                seen_ = {}
+                for (cn_, br_) in g.guard_branches(rn_, atoms=True):
+                    from ..guards import ctext as _ctext
+                    t_ = _ctext(prog, c, cn_.ast)               # `self.read_only` (a property returning the field) is `self._read_only`
+                    if seen_.setdefault(t_, br_) != br_:
+                        dead.append(rn_)
+                        break
+            skipped = g.reaches(g.entry, g.exit, avoid=snodes + dead, labels_excluded=('exc', 'raise', 'reraise'))
             ctx.ob('R18.1', f'{c}.set_value:stored-on-every-accepting-path', not skipped, sample=f'{c}.set_value: a normal exit without a store of {V} is reachable: {skipped}')
             if skipped:
                 ctx.finding('R18.1', f'{c}.set_value:accepted-but-not-stored', ci, stores[0],
